@@ -739,6 +739,51 @@ fn run_case(sink: &mut Sink, lx: &Lexica, dict: &Dict, ci: &CaseIn, ill_formed: 
     let b = run_mode_subset(dict, &ci.text, Mode::B, None, hb.as_mut());
     let sa: Vec<_> = (0..c.ctoks.len()).map(|i| run_split(&c.list, i, Mode::A)).collect();
     let sb: Vec<_> = (0..c.ctoks.len()).map(|i| run_split(&c.list, i, Mode::B)).collect();
+    // on-demand splits into result lists of OTHER dictionary instances (same system dictionary, no or other user
+    // dictionaries): once into an empty list per call, once into one list that first receives that dictionary's own
+    // analysis of the text and then every split in turn (never cleared): (k, with prior contents, per token (prior length, outcome))
+    let mut foreign: Vec<(usize, bool, Vec<(usize, Option<(bool, Vec<Tok>)>)>, Vec<(usize, Option<(bool, Vec<Tok>)>)>)> = vec![];
+    for (k, od) in ci.others.iter().enumerate() {
+        let mut fa = vec![];
+        let mut fb = vec![];
+        for i in 0..c.ctoks.len() {
+            for (m, dst) in [(Mode::A, &mut fa), (Mode::B, &mut fb)] {
+                dst.push((0usize, catch(|| {
+                    let mut out = MorphemeList::empty(od.clone());
+                    let flag = c.list.get(i).split_into(m, &mut out).expect("split_into error");
+                    (flag, observe(&out))
+                }).ok()));
+            }
+        }
+        foreign.push((k, false, fa, fb));
+        let filled = catch(|| {
+            let mut tok = StatefulTokenizer::new(od.clone(), Mode::C);
+            tok.reset().push_str(&ci.text);
+            tok.do_tokenize().expect("tokenisation error");
+            let mut out = MorphemeList::empty(od.clone());
+            out.collect_results(&mut tok).expect("collect");
+            out
+        });
+        if let Ok(mut out) = filled {
+            let mut fa = vec![];
+            let mut fb = vec![];
+            let mut broken = false;
+            for i in 0..c.ctoks.len() {
+                for (m, dst) in [(Mode::A, &mut fa), (Mode::B, &mut fb)] {
+                    let before = out.len();
+                    let r = if broken { None } else { catch(|| {
+                        let flag = c.list.get(i).split_into(m, &mut out).expect("split_into error");
+                        (flag, observe(&out)[before..].to_vec())
+                    }).ok() };
+                    broken = broken || r.is_none();
+                    dst.push((before, r));
+                }
+            }
+            if !broken {
+                foreign.push((k, true, fa, fb));
+            }
+        }
+    }
     if verbose {
         println!("text      : {:?}\nmodified  : {:?}\nm2o       : {:?}", ci.text, c.modified, c.m2o);
         println!("C tokenizer: {}", c.how);
@@ -770,19 +815,40 @@ fn run_case(sink: &mut Sink, lx: &Lexica, dict: &Dict, ci: &CaseIn, ill_formed: 
             format!("row {} {} {} {} {} {}", ctext(&w.key), ctext(&w.head), ctext(&Lexica::reading_of(w)), cn(pos_id(w)), units(&w.a), units(&w.b))
         }))
     }));
+    // the foreign targets as Coq cases: the target's dictionary view (the ids the source's view mentions, as THAT dictionary
+    // resolves them) goes to Model/SplitLists.v check_foreign next to the source's
+    let foreign_terms: String = foreign
+        .iter()
+        .map(|(k, _, fa, fb)| {
+            let df = clist(dvj.as_array().unwrap().iter().filter_map(|e| {
+                let raw = e[0].as_u64().unwrap() as u32;
+                if raw >> 28 == 0 {
+                    let nums = |x: &Value| clist(x.as_array().unwrap().iter().map(|u| cn(u.as_u64().unwrap() as u32)));
+                    Some(format!("({}, ({}, ({}, {})))", cn(raw), ctext(e[1].as_str().unwrap()), nums(&e[2]), nums(&e[3])))
+                } else if *k == 1 {
+                    Some(format!("({}, ({}, ([], [])))", cn(raw), ctext(&format!("ズ{}ズ", raw & 0x0fff_ffff))))
+                } else {
+                    None
+                }
+            }));
+            let col = |f: &Vec<(usize, Option<(bool, Vec<Tok>)>)>| clist(f.iter().map(|(p, r)| format!("({}%nat, {})", p, csplit(r))));
+            format!(" && check_foreign dv {} t m2o cp {} {}", df, col(fa), col(fb))
+        })
+        .collect();
     let term = format!(
-        "let t := {} in let m2o := {} in let cp := {} in let iu := {} in let sa := {} in let sb := {} in check_case {} t m2o cp {} iu {} {} sa sb && check_source {} t m2o cp iu sa sb",
+        "let dv := {} in let t := {} in let m2o := {} in let cp := {} in let iu := {} in let sa := {} in let sb := {} in check_case dv t m2o cp {} iu {} {} sa sb && check_source {} t m2o cp iu sa sb{}",
+        dv,
         ctext(&c.modified),
         clist(c.m2o.iter().map(|x| cnu(*x))),
         clist(c.cpath.iter().map(|x| format!("({}, {}, {})", cnu(x.0), cnu(x.1), cn(x.2)))),
         clist(c.stored.iter().map(|s| cpair(&clist(s.0.iter().map(|x| cn(*x))), &clist(s.1.iter().map(|x| cn(*x)))))),
         clist(sa.iter().map(csplit)),
         clist(sb.iter().map(csplit)),
-        dv,
         clist(c.ctoks.iter().map(ctok)),
         ctoks(&a),
         ctoks(&b),
-        srcs
+        srcs,
+        foreign_terms
     );
     if c.cpath.iter().filter_map(|p| lx.word_of(p.2)).any(|w| {
         w.a.iter().chain(w.b.iter()).any(|u| u.2 && lx.get(u.0, u.1).shadow_of.is_some())
@@ -987,21 +1053,16 @@ fn run_case(sink: &mut Sink, lx: &Lexica, dict: &Dict, ci: &CaseIn, ill_formed: 
             });
             // on-demand split into a result list that belongs to ANOTHER dictionary instance (same system dictionary, no or
             // other user dictionaries): the parts come from the dictionary of the list that owns the morpheme
-            'others: for (k, od) in ci.others.iter().enumerate() {
+            'others: for (k, filled, fa, fb) in foreign.iter() {
                 for i in 0..c.ctoks.len() {
-                    for (m, exp) in [(Mode::A, &sa[i]), (Mode::B, &sb[i])] {
-                        let got = catch(|| {
-                            let mut out = MorphemeList::empty(od.clone());
-                            let flag = c.list.get(i).split_into(m, &mut out).expect("split_into error");
-                            (flag, observe(&out))
-                        })
-                        .ok();
-                        if &got != exp {
-                            sink.fail(id, &format!("split_into({:?}) of token {} into a result list of another dictionary instance ({}) gives {:?}, into a list of its own dictionary {:?}", m, i, if k == 0 { "same system dictionary, no user dictionary" } else { "same system dictionary, other user dictionaries" }, got, exp), "");
+                    for (m, exp, got) in [(Mode::A, &sa[i], &fa[i].1), (Mode::B, &sb[i], &fb[i].1)] {
+                        if got != exp {
+                            sink.fail(id, &format!("split_into({:?}) of token {} into a result list of another dictionary instance ({}; {}) gives {:?}, into a list of its own dictionary {:?}", m, i, if *k == 0 { "same system dictionary, no user dictionary" } else { "same system dictionary, other user dictionaries" }, if *filled { "holding that dictionary's analysis and the earlier splits: parts appended" } else { "empty" }, got, exp), "");
                             break 'others;
                         }
                     }
                 }
+                sink.tag(if *filled { "split_into_foreign_list_with_contents" } else { "split_into_foreign_empty_list" });
             }
             match shared {
                 Err(p) => sink.fail(id, &format!("tokenizers sharing one result list: panic: {}", p), ""),
@@ -1219,7 +1280,7 @@ fn python_split_stage(sink: &mut Sink, args: &Args, res: &std::path::Path, repla
 }
 
 pub fn run(args: &Args) {
-    let mut sink = Sink::new("C09", &args.out, &["Model.Split", "Model.SplitSource"], args.seed, &args.tier);
+    let mut sink = Sink::new("C09", &args.out, &["Model.Split", "Model.SplitSource", "Model.SplitLists"], args.seed, &args.tier);
     sink.shard_size = 100;
     sink.rule("generated system + 0..2 user dictionaries (atoms of 1/2/3/4-byte code points, headwords (column 4) often of another byte length than the key, compounds declaring A and B units by id, U-id or inline reference: system->system, user->system, user->user; no-units columns written as `*` or as the empty column; homographs; user copies of system words (same key, headword, POS, reading) referenced inline, so that the own-rows-first look-up order matters; words with exactly one unit; unindexed unit targets) compiled by DictBuilder and loaded with DefaultInputTextPlugin + a rewrite.def whose rules change byte lengths, under path-rewrite stacks {none, JoinKatakanaOovPlugin minLength 1..4, JoinNumericPlugin, both} over dictionaries whose katakana / numeral words declare units (a token merged by a plugin declares none: unchanged in A/B, split_into false); texts = 1..4 dictionary words / stray characters, randomly re-spelt in pre-normalisation form (upper case, full width, ㌔, rewrite rules); per text: C, A, B tokenisation by tokenizers that are fresh or were switched between modes (set_mode history, with analyses in between) before, A and B again under restricted field requests (nothing, single fields, two drawn from the text; both orders of set_subset / set_mode; directly and through split_into on a mode-C result), and split_into(A/B) of every C token (sub-token ranges also checked against the unit key lengths); one result list shared by four tokenizers of different modes and field requests collecting in turn; split_into into result lists of other dictionary instances (same system dictionary, no / other user dictionaries); plus sudachipy sessions: create(mode=C, fields=F) + Morpheme.split(A/B) of every morpheme against create(mode=A/B, fields=F) for field sets with and without split_a / split_b; non-trivial = some C token declares >= 2 units; a separate malformed stream uses ill-formed declarations (unit list too short / first unit longer than the text)");
     let res = prepare_resources(&args.work);
